@@ -279,7 +279,7 @@ pub struct ObjDecl {
 pub const SRC_PROPS: &[(&str, T)] = &[
     ("i0", T::Int), ("i1", T::Int), ("u0", T::Uint), ("d0", T::Double), ("d1", T::Double), ("r0", T::Double), ("b0", T::Bool), ("b1", T::Bool),
     ("s0", T::Str), ("s1", T::Str), ("sl0", T::ListStr), ("il0", T::ListInt), ("e0", T::Mode), ("f0", T::Opts), ("v0", T::Variant),
-    ("p0", T::Ptr("VSrc")), ("p1", T::Ptr("VSrc")), ("w0", T::Ptr("QWidget")), ("ov", T::Int),
+    ("p0", T::Ptr("VSrc")), ("p1", T::Ptr("VSrc")), ("w0", T::Ptr("QWidget")), ("ov", T::Int), ("ro", T::Int),
 ];
 
 pub fn is_src_class(c: &str) -> bool {
